@@ -315,6 +315,26 @@ def check_C07(A: Analysis, tier):
 
 
 # ---------------------------------------------------------------------------------------
+def unbound_reads_rule(A, rule, only_funcs=None):
+    """reads of unbound / possibly unbound locals in every public call (both modes) and in the three helpers the interpreter
+    summarises instead of inlining (run on their own)"""
+    seen8 = set()
+    runs = list(A.all_api_runs()) + [A.run(f"{CLS}.{h}", "th") for h in ("_computehash", "_shard", "_cast_to_bytes")]
+    for it in runs:
+        reads = [(x, "never") for x in it.unbound] + [(x, "some") for x in it.maybe_unbound]
+        if it.mode == "th":
+            rule.ob()
+            rule.inst(f"{it.entry}: {len(reads)} unbound read(s)")
+        for (fq, name, line), how in reads:
+            if (fq, name, line) in seen8 or (only_funcs is not None and fq not in only_funcs):
+                continue
+            seen8.add((fq, name, line))
+            why = "on which it was never assigned" if how == "never" else "reached by paths of which only some have assigned it (e.g. a loop body that did not run)"
+            rule.fail(fq, f"{name} (line {line})", f"`{name}` is read in {fq.split('.')[-1]} on a path of {it.entry.split('.')[-1]} {why}: "
+                      "UnboundLocalError instead of the documented outcome; what follows the read (releases, removals) is skipped",
+                      f"src/hashstore/filehashstore.py:{line}")
+
+
 def check_C08(A: Analysis, tier):
     rules = []
     ra = Rule("C08", "C08.a", "what a claim appends is what its release removes (dynamic pairing, see C08.b) and "
@@ -424,20 +444,10 @@ def check_C08(A: Analysis, tier):
         if op.kind == "unknown" and not op.anomalies:
             rd.fail(op.func, op.node, "block under a condition's mutex matches none of the claim shapes", A.p.loc(op.func, op.node))
     rules += [rd, re_, rf]
-    rg8 = Rule("C08", "C08.g", "no path of a public call reads a local variable that nothing on that path has bound: the UnboundLocalError "
+    rg8 = Rule("C08", "C08.g", "no path of a public call reads a local variable that nothing on that path has bound, or that only some of the "
+               "paths joined before the read have bound (a loop body that may not run, a handler that falls through): the UnboundLocalError "
                "aborts the call in the middle of its clean-up / release sequence", floor=9)
-    seen8 = set()
-    for it in A.all_api_runs(("th",)):
-        rg8.ob()
-        rg8.inst(f"{it.entry}: {len(it.unbound)} unbound read(s)")
-        for (fq, name, line) in it.unbound:
-            if (fq, name, line) in seen8:
-                continue
-            seen8.add((fq, name, line))
-            f_ = A.p.func(fq) if A.p.has_func(fq) else None
-            rg8.fail(fq, f"{name} (line {line})", f"`{name}` is read in {fq.split('.')[-1]} on a path of {it.entry.split('.')[-1]} on which it was never assigned: "
-                     "UnboundLocalError instead of the documented outcome; what follows the read (releases, removals) is skipped",
-                     f"src/hashstore/filehashstore.py:{line}")
+    unbound_reads_rule(A, rg8)
     rules.append(rg8)
     return rules
 
@@ -537,7 +547,35 @@ def check_C12(A: Analysis, tier):
         if "META" in f.message:
             rg12.fail(f.func, f.construct, f.message, f.loc, f.detail)
     rules.append(rg12)
+    ri12 = Rule("C12", "C12.i", "the delete-all forms work through the whole directory listing: the loop over the listed documents has no `break` and "
+                "no `return` (a document that vanished since the listing - another call removed it - is skipped, the others are still removed)", floor=1)
+    listing_loop_rule(A, ri12)
+    rules.append(ri12)
     return rules
+
+
+def listing_loop_rule(A, rule):
+    seen = set()
+    for e in ("delete_metadata", "delete_object"):
+        for m in ("th", "mp"):
+            it = A.api(e, m)
+            loops = {(ev.func.qual) for ev in it.events if ev.prim in ("os.listdir", "os.scandir") or ev.kind == "LISTDIR"}
+            rule.ob()
+            for (fn, node, kind, ctx) in it.listing_loop_exits:
+                if (fn.qual, node.lineno, kind) in seen:
+                    continue
+                seen.add((fn.qual, node.lineno, kind))
+                stmt = next((x for b_ in node.body for x in ast.walk(b_) if isinstance(x, ast.Break if kind == "break" else ast.Return)), node)
+                rule.fail(fn, stmt, f"the loop over the pid's listed metadata documents can end early with `{kind}`: documents listed after the current one are "
+                          f"left in place although {e}(pid) reports success (no sequential order of the concurrent calls leaves them)", A.p.loc(fn, stmt),
+                          {"entry": e})
+    # the loops themselves (anchor): for statements whose iterable is a directory listing
+    n = 0
+    for e in ("delete_metadata",):
+        it = A.api(e, "th")
+        n += len(getattr(it, "listing_loops", ()))
+    for k in range(n):
+        rule.inst(f"listing loop #{k + 1}")
 
 
 # ---------------------------------------------------------------------------------------
